@@ -118,6 +118,8 @@ def _pipeline(models):
     for j in range(models):
         g = GROUPS[j * len(GROUPS) // models] if models <= len(GROUPS) else GROUPS[j % len(GROUPS)]
         g = GROUPS[min(j // max(1, models // len(GROUPS) or 1), len(GROUPS) - 1)] if models > len(GROUPS) else GROUPS[j]
+        # a switched-off model in front of every probe: positions among the listed models and among the executed ones differ
+        kw.setdefault(g, []).append(ModelFunction(name=f"off{j}", func="vxprobes.probe_b", arguments={"tag": -1 - j}, enabled=False))
         kw.setdefault(g, []).append(ModelFunction(name=f"m{j}", func=("vxprobes.probe", "vxprobes.probe_a")[j % 2], arguments={"tag": j, "p": 0}))
         layout.append((g, f"m{j}"))
     return DetectionPipeline(**kw), layout
@@ -168,6 +170,7 @@ def _drive_yaml(mode, layout, times, pkind, marker):
 
     groups: dict = {"scene_generation": [{"name": "init", "func": "vxprobes.init_buckets", "enabled": True}]}
     for j, (g, nm) in enumerate(layout):
+        groups.setdefault(g, []).append({"name": f"off{j}", "func": "vxprobes.probe_b", "enabled": False, "arguments": {"tag": -1 - j}})
         groups.setdefault(g, []).append({"name": nm, "func": ("vxprobes.probe", "vxprobes.probe_a")[j % 2], "enabled": True, "arguments": {"tag": j, "p": 0}})
     cfg = {"ccd_detector": {"geometry": {"row": 2, "col": 2, "total_thickness": 40.0, "pixel_vert_size": 10.0, "pixel_horz_size": 10.0},
                             "environment": {"temperature": 200.0}, "characteristics": {}},
